@@ -39,6 +39,7 @@ type Case struct {
 	Reader string         `json:"reader"` // bytes | file | zip-store | zip-deflate
 	// ZipFail >= 0 injects a reader fault under archive/zip at that archive offset.
 	ZipFail int64  `json:"zip_fail"`
+	ZipLen  int64  `json:"zip_len,omitempty"` // length of the bad region (0 = to the end)
 	ZipMode string `json:"zip_mode,omitempty"`
 	Data    []byte `json:"data"`
 }
@@ -117,7 +118,7 @@ func load(c *Case, env *Env) (m *gonnx.Model, o outcome) {
 		os.Remove(p)
 	case "zip-store", "zip-deflate":
 		// c.Data is the archive as it sits on the medium (already damaged, if so).
-		ra := &medium.FaultyReaderAt{Data: c.Data, FailFrom: c.ZipFail, Mode: c.ZipMode}
+		ra := &medium.FaultyReaderAt{Data: c.Data, FailFrom: c.ZipFail, FailLen: c.ZipLen, Mode: c.ZipMode}
 		var zr *zip.Reader
 		o = guard(func() (err error) { zr, err = zip.NewReader(ra, int64(len(c.Data))); return })
 		if o.kind != "ok" {
